@@ -69,6 +69,25 @@ entries at or before the last consumed offset (for a sorted selection). -/
 theorem C11_reposition_correct (cur : List Ent) (pos : Option Nat) :
     reposition cur pos = cur.findIdx (after pos) := reposition_eq cur pos
 
+/-! ### What a stepped index slice selects -/
+
+theorem stride_getElem? (k : Nat) (hk : 0 < k) (l : List Ent) (n : Nat) : (stride k l)[n]? = l[n * k]? := by
+  fun_induction stride k l generalizing n with
+  | case1 => simp
+  | case2 x xs ih =>
+    cases n with
+    | zero => simp
+    | succ n =>
+      rw [List.getElem?_cons_succ, ih, List.getElem?_drop]
+      have : (n + 1) * k = (k - 1 + n * k) + 1 := by rw [Nat.succ_mul]; omega
+      rw [this, List.getElem?_cons_succ]
+
+/-- The selection made by `filter_in_place(slice(i, j, k))` (`Op.filterStride`, `k ≥ 1`) is Python's `index[i:j:k]`: its
+`n`-th entry is entry `i + n·k` of the entries before `j`, and it ends where those end. -/
+theorem C11_stride_meaning (i j k : Nat) (hk : 0 < k) (sel : List Ent) (n : Nat) :
+    (stride k ((sel.take j).drop i))[n]? = (sel.take j)[i + n * k]? := by
+  rw [stride_getElem? k hk, List.getElem?_drop]
+
 /-! ### No message twice: the cursor only moves forward between rewinds and seeks -/
 
 /-- "at or after": ordering of cursor positions (`none` = before the first message). -/
